@@ -4,7 +4,7 @@ from __future__ import annotations
 import ast
 import re
 
-from engine.cfg import CFG, normalise_compare, atoms
+from engine.cfg import CFG, normalise_compare, atoms, A
 from engine.model import src, stmt_key, dotted, AnalysisError
 from engine.project import feasible_paths, eval_norm
 from engine import pat
@@ -165,8 +165,8 @@ def run(model, rep, tier):
         rep.check(okk, "R-18.1", f.qualname, where(f, f.node), "a datagram is parsed only after _matches_destination accepted its source", "datagrams are parsed/returned without the source-address test", stmt="destination-first")
     mdf = model.func("dns.query._matches_destination")
     t = " ".join(src(mdf.node).split())
-    okk = "if not destination: return True" in t and "if _addresses_equal(af, from_address, destination) or (dns.inet.is_multicast(destination[0]) and from_address[1:] == destination[1:]): return True" in t \
-        and "elif ignore_unexpected: return False" in t and "raise UnexpectedSource" in t
+    okk = pat.has(mdf.node, "if not destination:\n    return True") and pat.has(mdf.node, "if _addresses_equal(af, from_address, destination) or (dns.inet.is_multicast(destination[0]) and from_address[1:] == destination[1:]):\n    return True\nelif ignore_unexpected:\n    return False") \
+        and "raise UnexpectedSource" in t
     rep.check(okk, "R-18.1", mdf.qualname, where(mdf, mdf.node), "source must equal the destination (address and port; multicast: port) else skip/raise", "_matches_destination changed", stmt="matches-shape")
     ae = model.func("dns.query._addresses_equal")
     t = " ".join(src(ae.node).split())
@@ -177,7 +177,7 @@ def run(model, rep, tier):
     cfg = CFG(ir.node, implicit_exc=False)
     first = [n for n in cfg.nodes if n.kind == "test"][0] if any(n.kind == "test" for n in cfg.nodes) else None
     okk = first is not None and normalise_compare(first.ast.test)[0] == "or" and set(atoms(normalise_compare(first.ast.test))) == {
-        ("other.flags & dns.flags.QR", "==", "0"), ("self.id", "!=", "other.id"), ("dns.opcode.from_flags(self.flags)", "!=", "dns.opcode.from_flags(other.flags)")}
+        A("other.flags & dns.flags.QR", "==", "0"), A("self.id", "!=", "other.id"), A("dns.opcode.from_flags(self.flags)", "!=", "dns.opcode.from_flags(other.flags)")}
     if okk:
         rets = [n for n in cfg.nodes if isinstance(n.ast, ast.Return) and src(n.ast.value) == "True"]
         okk = all(cfg.edge_dominated(r.id, {(first.id, "f")}) for r in rets) and bool(rets)
